@@ -184,8 +184,8 @@ def compute_matching_genotype_pos(phasing0, phasing1):
     matching_pos = [
         i
         for i in range(num_vars)
-        if Genotype([int(hap[i]) for hap in phasing0])
-        == Genotype([int(hap[i]) for hap in phasing1])
+        if Genotype([int(hap[i], 16) for hap in phasing0])
+        == Genotype([int(hap[i], 16) for hap in phasing1])
     ]
     return matching_pos
 
@@ -550,8 +550,9 @@ def compare_pair(
         phasing0 = []
         phasing1 = []
         for j in range(ploidy):
-            p0 = "".join(str(phases[0][i].phase[j]) for i in block)
-            p1 = "".join(str(phases[1][i].phase[j]) for i in block)
+            # one character per allele (allele indices can have two digits)
+            p0 = "".join(format(phases[0][i].phase[j], "x") for i in block)
+            p1 = "".join(format(phases[1][i].phase[j], "x") for i in block)
             phasing0.append(p0)
             phasing1.append(p1)
         block_positions = [sorted_variants[i].position for i in block]
@@ -646,8 +647,8 @@ def compare_multiway(block_intersection, dataset_names, phases):
         phasings = [
             orientation(
                 [
-                    "".join(str(phases[j][i].phase[0]) for i in block),
-                    "".join(str(phases[j][i].phase[1]) for i in block),
+                    "".join(format(phases[j][i].phase[0], "x") for i in block),
+                    "".join(format(phases[j][i].phase[1], "x") for i in block),
                 ]
             )
             for j in range(len(phases))
